@@ -586,7 +586,10 @@ private:
             } ).on_exception( [&] {
                 segment_type disabled_segment = nullptr;
                 if (table[0].compare_exchange_strong(disabled_segment, this->segment_allocation_failure_tag)) {
-                    size_type end_segment = table == this->my_embedded_table ? this->pointers_per_embedded_table : first_block;
+                    // Only the segments of the first block share the failed allocation; the other entries of the
+                    // embedded table are ordinary segments that other threads may have allocated already
+                    size_type end_segment = table == this->my_embedded_table && first_block > this->pointers_per_embedded_table ?
+                        this->pointers_per_embedded_table : first_block;
                     for (size_type i = 1; i < end_segment; ++i) {
                         table[i].store(this->segment_allocation_failure_tag, std::memory_order_release);
                     }
